@@ -18,6 +18,8 @@ for d in sorted(glob.glob(os.path.join(V, "seeded", "C*"))):
     note = ""
     if m.get("out_of_scope"):
         note = "not claimed (outside the models the property quantifies over; reason in meta.json)"
+    elif m.get("not_caught"):
+        note = "NOT caught by any check (see 12.5, round 13; meta.json: note)"
     elif m.get("masked_by_known_finding"):
         note = "masked by open finding %s (reported as that known finding; see 12.5)" % m["masked_by_known_finding"]
     elif m.get("caught_by_other_property"):
